@@ -22,9 +22,11 @@ Rec == ndJsonDeserialize(IOEnv.TRACE)
 
 VARIABLES l,      \* index of the next record
           bad,    \* the current segment has diverged (or ended in a trap): skip to the next one
-          nad     \* number of addresses of the current segment
+          nad,    \* number of addresses of the current segment
+          lastq,  \* the last get_utxos answer (address, filter, sum / error), for the C05 relation
+          upg     \* TRUE from an upgrade until the next state-changing message
 
-tvars == <<vars, l, bad, nad>>
+tvars == <<vars, l, bad, nad, lastq, upg>>
 
 R == Rec[l]
 Has(r, f) == f \in DOMAIN r
@@ -32,16 +34,24 @@ Has(r, f) == f \in DOMAIN r
 (***************************************************************************)
 (* Reporting.                                                              *)
 (***************************************************************************)
-\* a list of <<tag, expected, got>>; prints every element whose two sides differ and
-\* returns TRUE iff all agree
+\* a list of <<tag, expected, got>> or <<tag, expected, got, alts>>; alts is a set of
+\* <<known-finding name, value>>: a listed deviation of the code from the property.
+\* Prints every element whose two sides differ; returns TRUE iff all agree (a known
+\* deviation counts as agreement, so that the rest of the trace is still checked).
+Known(c) == Len(c) = 4 /\ \E a \in c[4] : a[2] = c[3]
 AllAgree(checks) ==
-  LET badIdx == {i \in 1..Len(checks) : checks[i][2] # checks[i][3]}
-  IN IF badIdx = {} THEN TRUE
-     ELSE /\ \A i \in badIdx : PrintT("@@" \o ToJson([kind |-> "MISMATCH", l |-> l, ev |-> R.ev, tag |-> checks[i][1],
-                                                           exp |-> checks[i][2], got |-> checks[i][3]]))
-          /\ FALSE
+  LET diff == {i \in 1..Len(checks) : checks[i][2] # checks[i][3]}
+      kfs  == {i \in diff : Known(checks[i])}
+      badIdx == diff \ kfs
+  IN /\ \A i \in kfs : PrintT("@@" \o ToJson([kind |-> "KNOWN", l |-> l, ev |-> R.ev, tag |-> checks[i][1],
+                            kf |-> {a[1] : a \in {x \in checks[i][4] : x[2] = checks[i][3]}},
+                            exp |-> checks[i][2], got |-> checks[i][3], paused |-> ing.b # 0, upg |-> upg]))
+     /\ \A i \in badIdx : PrintT("@@" \o ToJson([kind |-> "MISMATCH", l |-> l, ev |-> R.ev, tag |-> checks[i][1],
+                            exp |-> checks[i][2], got |-> checks[i][3], paused |-> ing.b # 0, upg |-> upg]))
+     /\ badIdx = {}
 
-Note(kind, tag, detail) == PrintT("@@" \o ToJson([kind |-> kind, l |-> l, ev |-> R.ev, tag |-> tag, detail |-> detail]))
+Note(kind, tag, detail) == PrintT("@@" \o ToJson([kind |-> kind, l |-> l, ev |-> R.ev, tag |-> tag, detail |-> detail,
+                                                    paused |-> ing.b # 0, upg |-> upg]))
 
 (***************************************************************************)
 (* Projection of the specification's state, in the shape the harness logs. *)
@@ -132,8 +142,10 @@ EmptyUni == [par |-> <<0>>, diff |-> <<1>>, time |-> <<0>>, btx |-> <<<<1>>>>, t
              tout |-> <<<<[a |-> 0, v |-> 0]>>>>, vsz |-> <<1>>]
 DummyCfg == [net |-> "regtest", thr |-> 1, api |-> TRUE, syncing |-> TRUE, gate |-> TRUE, lazy |-> FALSE]
 
+NoQ == [addr |-> -1, mc |-> -1, res |-> "none"]
+
 TraceInit ==
-  /\ l = 1 /\ bad = TRUE /\ nad = 0
+  /\ l = 1 /\ bad = TRUE /\ nad = 0 /\ lastq = NoQ /\ upg = FALSE
   /\ uni = EmptyUni
   /\ cfg = DummyCfg /\ stable = <<>> /\ tree = [anchor |-> 1, arr |-> <<1>>] /\ ing = NoIng
   /\ next = {} /\ sync = [fetching |-> FALSE, resp |-> NoResp] /\ fee = NoFee /\ cnt = ZeroCnt
@@ -146,12 +158,13 @@ TraceUniverse ==
   /\ uni' = R.uni
   /\ nad' = R.naddr
   /\ Install(InitState(R.cfg))
+  /\ lastq' = NoQ /\ upg' = FALSE
   /\ bad' = ~(UniverseValid')       \* outside the properties' domain: nothing is claimed
   /\ (UniverseValid' \/ Note("TOOLERROR", "universe", "a block of the universe is not transaction-valid"))
 
 Skip ==      \* records of a diverged segment, and records that carry no information
   /\ Consume /\ R.ev # "universe" /\ (bad \/ R.ev = "skip")
-  /\ UNCHANGED <<vars, bad, nad>>
+  /\ UNCHANGED <<vars, bad, nad, lastq, upg>>
 
 Live(e) == Consume /\ ~bad /\ R.ev = e
 
@@ -160,24 +173,26 @@ Live(e) == Consume /\ ~bad /\ R.ev = e
 (***************************************************************************)
 \* common tail: compare the logged post-state with the specification's successor m2
 Land(m2, extra) ==
-  IF R.out = "trap"
-  THEN /\ UNCHANGED <<vars, nad>> /\ bad' = TRUE
-       /\ Note("MISMATCH", "trap", <<"the message trapped but the specification expects it to complete", R.msg>>)
-  ELSE /\ Install(m2) /\ UNCHANGED <<uni, nad>>
-       /\ bad' = ~AllAgree(extra \o PostChecks(m2, R.post))
+  /\ lastq' = NoQ /\ upg' = (R.ev = "upgrade")
+  /\ IF R.out = "trap"
+     THEN /\ UNCHANGED <<vars, nad>> /\ bad' = TRUE
+          /\ Note("MISMATCH", "trap", <<"the message trapped but the specification expects it to complete", R.msg>>)
+     ELSE /\ Install(m2) /\ UNCHANGED <<uni, nad>>
+          /\ bad' = ~AllAgree(extra \o PostChecks(m2, R.post))
 
 ExpectTrap(tag) ==
-  IF R.out = "trap"
-  THEN /\ UNCHANGED <<vars, nad>> /\ bad' = TRUE
-       /\ Note("EXPECTEDTRAP", tag, R.msg)
-  ELSE /\ UNCHANGED <<vars, nad>> /\ bad' = TRUE
-       /\ Note("MISMATCH", "trap", "the specification expects this message to trap")
+  /\ UNCHANGED <<lastq, upg>>
+  /\ IF R.out = "trap"
+     THEN /\ UNCHANGED <<vars, nad>> /\ bad' = TRUE
+          /\ Note("EXPECTEDTRAP", tag, R.msg)
+     ELSE /\ UNCHANGED <<vars, nad>> /\ bad' = TRUE
+          /\ Note("MISMATCH", "trap", "the specification expects this message to trap")
 
 Budget(b) == IF b = 0 THEN 1000000000 ELSE b
 
 ReplyOf(r) == r     \* logged replies already have the specification's shape
 
-TraceTick == Live("tick") /\ now' = R.now /\ UNCHANGED <<uni, cfg, stable, tree, ing, next, sync, fee, cnt, known, flight, walks, bad, nad>>
+TraceTick == Live("tick") /\ now' = R.now /\ UNCHANGED <<uni, cfg, stable, tree, ing, next, sync, fee, cnt, known, flight, walks, bad, nad, lastq, upg>>
 
 TraceHb ==
   /\ Live("hb")
@@ -186,7 +201,7 @@ TraceHb ==
          netOK == <<"hb.request.net", IF R.req.k = "initial" THEN cfg.net ELSE "-", IF R.req.k = "initial" THEN R.req.net ELSE "-">>
      IN IF f.st = "trap" THEN ExpectTrap("hb.ingest")
         ELSE IF f.st = "called" /\ R.req.k # "none" /\ ~Conformant(f.req, R.reply)
-        THEN /\ UNCHANGED <<vars, nad>> /\ bad' = TRUE
+        THEN /\ UNCHANGED <<vars, nad, lastq, upg>> /\ bad' = TRUE
              /\ Note("TOOLERROR", "hb.reply", "the harness delivered a reply that does not fit the request")
         ELSE Land(f.m, <<reqOK, netOK>>)
 
@@ -202,7 +217,7 @@ TraceHbSend ==
 TraceHbReply ==
   /\ Live("hb_reply")
   /\ IF R.id \notin flight
-     THEN /\ UNCHANGED <<vars, nad>> /\ bad' = TRUE
+     THEN /\ UNCHANGED <<vars, nad, lastq, upg>> /\ bad' = TRUE
           /\ Note("MISMATCH", "hb_reply.flight", "reply delivered to a heartbeat that the specification does not hold suspended")
      ELSE LET m1 == ApplyReply(St, R.reply)
               m2 == [m1 EXCEPT !.flight = @ \ {R.id}]
@@ -277,6 +292,12 @@ BalanceChecks(m) ==
   ELSE IF R.ans.k # "ok" THEN << <<"balance.answer", "ok", R.ans>> >>
   ELSE << <<"balance.value." \o McTag, BalanceView(m, R.addr, McOf).ok, R.ans.v>> >>
 
+\* C05 as a direct relation between two answers of the code (same address, same filter, same state)
+RelationChecks ==
+  IF R.ep = "balance" /\ R.ac = "ok" /\ lastq.addr = R.addr /\ lastq.mc = McOf /\ R.ans.k # "trap"
+  THEN << <<"relation.balance_vs_utxos." \o McTag, lastq.res, IF R.ans.k = "ok" THEN R.ans.v ELSE R.ans.err>> >>
+  ELSE <<>>
+
 HeadersChecks(m) ==
   LET v == HeadersView(m, R.s, R.e) IN
   IF Has(v, "err")
@@ -287,19 +308,43 @@ HeadersChecks(m) ==
           <<"headers.all80", TRUE, R.ans.all80>>,
           <<"headers.linked", TRUE, R.ans.linked>> >>
 
+\* get_blockchain_info.utxos_length as the code computes it: the raw stable map (already partly
+\* updated while the anchor's ingestion is paused) plus the cached deltas of the best chain
+\* (lost on upgrade).  It differs from UtxosLength in exactly two listed situations.
+PartialDelta(m) ==
+  IF m.ing.b = 0 THEN 0
+  ELSE LET ops == BlockOps(m.ing.b)
+       IN SumSeq([i \in 1..m.ing.k |->
+                    IF ops[i].kind = "in" THEN -1
+                    ELSE IF Outs(ops[i].t)[ops[i].i].a = OpRet THEN 0 ELSE 1])
+UtxosLengthCode(m) ==
+  LET bc == Best(m)
+      v == Cardinality(LedgerAt(StableTop(m))) + PartialDelta(m)
+           + SumSeq([i \in 1..Len(bc) |-> IF bc[i] \in m.known THEN UtxoDelta(bc[i]) ELSE 0])
+  IN IF v < 0 THEN 0 ELSE v
+UtxosLengthAlts(m) ==
+  LET names == (IF PartialDelta(m) # 0 THEN {"KF_PausedUtxosLength"} ELSE {})
+               \cup (IF \E i \in 1..Len(Best(m)) : Best(m)[i] \notin m.known /\ UtxoDelta(Best(m)[i]) # 0
+                     THEN {"KF_UpgradeUtxosLength"} ELSE {})
+  IN {<<n, UtxosLengthCode(m)>> : n \in names}
+
 InfoChecks(m) ==
   LET q == QInfo(m) IN
   << <<"info.height", q.height, R.ans.height>>,
      <<"info.tip", q.tip, R.ans.tip>>,
      <<"info.time", q.time, R.ans.time>>,
-     <<"info.diff", q.diff, R.ans.diff>> >>
+     <<"info.diff", q.diff, R.ans.diff>>,
+     <<"info.utxosLength", UtxosLength(m), R.ans.utxosLength, UtxosLengthAlts(m)>> >>
 
 TraceQuery ==
   /\ Live("q") /\ R.ep \in {"utxos", "balance", "headers", "info", "config"}
-  /\ UNCHANGED <<vars, bad, nad>>
+  /\ UNCHANGED <<vars, bad, nad, upg>>
+  /\ lastq' = IF R.ep = "utxos" /\ R.ac = "ok" /\ R.ans.k # "trap"
+              THEN [addr |-> R.addr, mc |-> McOf, res |-> IF R.ans.k = "ok" THEN SumSeq([i \in 1..Len(R.ans.utxos) |-> R.ans.utxos[i][3]]) ELSE R.ans.err]
+              ELSE IF R.ep = "balance" THEN NoQ ELSE lastq
   /\ LET m == St
          checks == CASE R.ep = "utxos"   -> Gated(m, "get_utxos", UtxosChecks(m))
-                     [] R.ep = "balance" -> Gated(m, "get_balance", BalanceChecks(m))
+                     [] R.ep = "balance" -> Gated(m, "get_balance", BalanceChecks(m)) \o RelationChecks
                      [] R.ep = "headers" -> Gated(m, "get_block_headers", HeadersChecks(m))
                      [] R.ep = "info"    -> InfoChecks(m)
                      [] R.ep = "config"  -> << <<"config.value", m.cfg, R.ans.cfg>> >>
@@ -312,7 +357,7 @@ TraceFees ==
          reasons == GateReasons(m, "get_current_fee_percentiles", NetLower(R.net))
          ev == FeeEval(m)
          m2 == IF reasons # {} THEN m ELSE [m EXCEPT !.fee = ev.fee]
-     IN /\ Install(m2) /\ UNCHANGED <<uni, nad>>
+     IN /\ Install(m2) /\ UNCHANGED <<uni, nad, lastq, upg>>
         /\ bad' = ~AllAgree(Gated(m, "get_current_fee_percentiles", << <<"fees.values", ev.ans, R.ans.vals>> >>)
                             \o PostChecks(m2, R.post))
 
